@@ -183,7 +183,7 @@ def op_for_member(kind, k, name, args):
 
 @st.composite
 def st_hierarchy(draw, ids, n_classes=(1, 3), kinds=tuple(MEMBER_KINDS), dag=False, with_invs=False,
-                 with_init=True, with_new=False, async_ok=True, deco_kw=None, inv_err_forms=("default",), root_modes=("DBC", "meta")):
+                 with_init=True, with_new=False, async_ok=True, multi_root=False, deco_kw=None, inv_err_forms=("default",), root_modes=("DBC", "meta")):
     """Classes over DBC sharing one member name (and optionally __init__), with drawn overrides."""
     deco_kw = dict(deco_kw or {})
     n = draw(st.integers(*n_classes))
@@ -195,6 +195,8 @@ def st_hierarchy(draw, ids, n_classes=(1, 3), kinds=tuple(MEMBER_KINDS), dag=Fal
     for ci in range(n):
         if ci == 0:
             bases = []
+        elif dag and multi_root and draw(st.integers(0, 3)) == 0:
+            bases = []  # a further, independent root
         elif dag and ci >= 2 and draw(st.booleans()):
             b1 = draw(st.integers(0, ci - 1))
             b2 = draw(st.integers(0, ci - 1).filter(lambda b: b != b1))
@@ -204,8 +206,14 @@ def st_hierarchy(draw, ids, n_classes=(1, 3), kinds=tuple(MEMBER_KINDS), dag=Fal
         c = {"name": "K%d" % ci, "bases": bases, "root": draw(st.sampled_from(list(root_modes))), "shape": "plain",
              "invs": [], "members": []}
         how = "define" if ci == 0 else draw(st.sampled_from(["define", "define", "define", "skip"]))
+        if ci > 0 and not bases and draw(st.booleans()):
+            # an independent root often provides the member without any precondition
+            deco_kw_root = dict(deco_kw)
+            deco_kw_root["n_pre"] = (0, 0)
+        else:
+            deco_kw_root = None
         if how == "define":
-            fk = dict(deco_kw)
+            fk = dict(deco_kw_root or deco_kw)
             if ci > 0 and draw(st.integers(0, 2)) == 0:
                 fk["n_pre"] = (0, 0)  # redefinition without own preconditions
             members = []
